@@ -41,6 +41,7 @@ class Prop(BaseProp):
         "collision-freeness of keyed BLAKE3 is NOT assumed: injectivity theorems conclude with an explicit collision",
     ]
     assumptions = [
+        'injectivity theorems: collision freedom is a hypothesis about the finitely many texts hashed while aggregating the two lists (NoCollision) and about the 8-byte lookup keys of the nodes of each tree (KeysOk); hashes are 32 byte values',
         "MerkleMemDB modelled as hash -> first length stored (hash-consing); node attributes and ids are not modelled (they do not reach any hash)",
         "HashedWrite modelled over a scripted inner writer (accepted byte count or error per call)",
     ]
